@@ -111,3 +111,23 @@ func init() {
 		Assumes:    []string{"VTA call graph for reachability"},
 	})
 }
+
+func init() {
+	register(&propSpec{
+		ID:    "C14",
+		Rules: []func(*Ctx){ruleR14},
+		Explain: "R14: SSA taint over every function of soyjs with parameter summaries to a fixpoint: values loaded from the free-text fields (raw text, string literal values, map-literal keys, css suffix, message html tags, catalogue text, file name) must reach the output (Writer.Write, fmt.Fprint*, JSWriter.Write, the generator's own js/jsln) only through text/template.JSEscape / JSEscapeString.",
+		NotDecided: "syntactic validity of the whole generated file; one function per template under its qualified name; identifier-class fields (template, parameter and variable names), which the scanner restricts to letters, digits and underscore.",
+		Assumes:    []string{"text/template.JSEscape is a correct JavaScript string escaper (it escapes quotes, backslash, <, >, &, = and every non-printable rune including U+2028/9)"},
+	})
+}
+
+func init() {
+	register(&propSpec{
+		ID:    "C07",
+		Rules: []func(*Ctx){ruleR07a, ruleR07b, ruleR07c, ruleR07d, func(c *Ctx) { ruleBlocks(c, "R07c-blocks", "soyhtml", 8) }},
+		Explain: "R07a: on every success path Compile has parsed and registered every file and run CheckDataRefs, SetGlobals and ProcessMessages, and honours each error (go/cfg must-pass + SSA error discipline); R07b: the node kinds that bind a name agree between the compile-time checker, the Go renderer and the JavaScript generator, and data references are checked; R07c: every node-typed field of every AST node type is returned by its Children(), so no reference escapes the tree passes; the interpreter ends a {let} at least as early as the checker assumes (block frames); R07d: the one-declaration-mechanism test precedes recording a template.",
+		NotDecided: "that acceptance is exact for every program: the checker's own algorithm (shadowing, data=\"all\" expansion, required params) is value-level and not decided.",
+		Assumes:    []string{"go/cfg control flow", "the tree passes visit exactly what Children() returns"},
+	})
+}
